@@ -96,3 +96,107 @@ Definition dir_reorder (s : bytes) (xtd ctxfound : Z) (raw : nat -> nat -> Z -> 
   let ord1 := if nl then upd ord (n - 1) (n - 1)%nat else ord in
   let n1 := if nl then (n - 1)%nat else n in
   dir_fix (dir_match s chrs raw) (S n1) ord1 dir 0 n1.
+
+(* dir_reorder as the argument of ren_position (RenDefs.v): out of fuel leaves the array alone *)
+Definition dr_of (xtd ctxfound : Z) (raw : nat -> nat -> Z -> Z -> option rawres) (s : bytes) (ord : list nat) : list nat :=
+  match dir_reorder s xtd ctxfound raw ord with Some r => r | None => ord end.
+
+(* ---- a syntactic nullable analysis of the ERE syntax of regex.c, used only to re-check that no
+   configured mark can match the empty string (termination of dir_fix).  true = "may match
+   without consuming a character"; anything the analysis cannot read counts as nullable. *)
+(* the rest after a bracket expression whose '[' has been consumed *)
+Fixpoint skip_to_rbracket (s : bytes) : option bytes :=
+  match s with
+  | [] => None
+  | c :: r => if (c =? 93)%N then Some r else skip_to_rbracket r
+  end.
+Definition skip_bracket (s : bytes) : option bytes :=
+  let s1 := match s with c :: r => if (c =? 94)%N then r else s | [] => s end in       (* ^ *)
+  match s1 with
+  | c :: r => if (c =? 93)%N then skip_to_rbracket r else skip_to_rbracket s1          (* a leading ] is literal *)
+  | [] => None
+  end.
+(* {m,n}: returns (m = 0 or missing, rest after the closing brace) *)
+Fixpoint skip_to_rbrace (s : bytes) : option bytes :=
+  match s with
+  | [] => None
+  | c :: r => if (c =? 125)%N then Some r else skip_to_rbrace r
+  end.
+Fixpoint brace_min (s : bytes) (seen : bool) (zero : bool) : option (bool * bytes) :=
+  match s with
+  | [] => None
+  | c :: r =>
+    if (c =? 125)%N then Some (zero || negb seen, r)
+    else if (c =? 44)%N then match skip_to_rbrace r with Some r' => Some (zero || negb seen, r') | None => None end
+    else if ((48 <=? c) && (c <=? 57))%N then brace_min r true (zero && (c =? 48)%N)
+    else None
+  end.
+(* repetition suffixes after an atom *)
+Fixpoint p_suffix (k : nat) (nb : bool) (s : bytes) : option (bool * bytes) :=
+  match k with
+  | O => None
+  | S k' =>
+    match s with
+    | c :: r =>
+      if ((c =? 42) || (c =? 63))%N then p_suffix k' true r
+      else if (c =? 43)%N then p_suffix k' nb r
+      else if (c =? 123)%N then match brace_min r false true with
+                                | Some (z, r') => p_suffix k' (nb || z) r'
+                                | None => None
+                                end
+      else Some (nb, s)
+    | [] => Some (nb, s)
+    end
+  end.
+Fixpoint p_alt (fuel : nat) (s : bytes) : option (bool * bytes) :=
+  match fuel with
+  | O => None
+  | S f =>
+    let fix p_seq (k : nat) (s : bytes) (acc : bool) : option (bool * bytes) :=
+      match k with
+      | O => None
+      | S k' =>
+        match s with
+        | [] => Some (acc, [])
+        | c :: r =>
+          if ((c =? 124) || (c =? 41))%N then Some (acc, s)
+          else
+            let atom :=
+              if (c =? 40)%N then
+                match p_alt f r with
+                | Some (nb, d :: rest) => if (d =? 41)%N then Some (nb, rest) else None
+                | _ => None
+                end
+              else if (c =? 91)%N then match skip_bracket r with Some rest => Some (false, rest) | None => None end
+              else if (c =? 92)%N then
+                match r with
+                | [] => None
+                | d :: _ => Some (((d =? 60) || (d =? 62))%N, skipn (uc_len r) r)
+                end
+              else if ((c =? 94) || (c =? 36))%N then Some (true, r)
+              else Some (false, skipn (uc_len s) s) in
+            match atom with
+            | None => None
+            | Some (nb, rest) =>
+              match p_suffix (S (length rest)) nb rest with
+              | None => None
+              | Some (nb', rest') => p_seq k' rest' (acc && nb')
+              end
+            end
+        end
+      end in
+    match p_seq (S (length s)) s true with
+    | None => None
+    | Some (nb, rest) =>
+      match rest with
+      | c :: r => if (c =? 124)%N then match p_alt f r with Some (nb2, rest2) => Some (nb || nb2, rest2) | None => None end
+                  else Some (nb, rest)
+      | [] => Some (nb, rest)
+      end
+    end
+  end.
+Definition pat_nullable (p : bytes) : bool :=
+  match p_alt (S (length p)) p with
+  | Some (nb, []) => nb
+  | _ => true
+  end.
